@@ -39,6 +39,8 @@ type ammWorld struct {
 	halted  bool
 	// what the provider refunds of successful decommissions so far may have left behind per token (see opDecom)
 	decomBudget int
+	// the harness's own ledger: pool symbol + "/" + address -> height of the provider's last ACCEPTED create / add
+	lastAdd map[string]int64
 }
 
 func userAddr(i int) sdk.AccAddress { return sdk.AccAddress(bytes.Repeat([]byte{byte(0x10 + i)}, 20)) }
@@ -46,7 +48,7 @@ func userAddr(i int) sdk.AccAddress { return sdk.AccAddress(bytes.Repeat([]byte{
 func newAmmWorld(rng *Rng, out *Out, nUsers int, blockedIdx int) *ammWorld {
 	sifapp.SetConfig(false)
 	var bl []sdk.AccAddress
-	w := &ammWorld{out: out, rng: rng, blocked: map[string]bool{}}
+	w := &ammWorld{out: out, rng: rng, blocked: map[string]bool{}, lastAdd: map[string]int64{}}
 	for i := 0; i < nUsers; i++ {
 		w.users = append(w.users, userAddr(i))
 	}
@@ -240,6 +242,25 @@ func (w *ammWorld) hook(op, class string, f func()) {
 		w.out.Emit(fmt.Sprintf("chk c18.l1lppd tag=endblock.lppd %d%s %s", nch, sb.String(), pre), "true", "chk.l1lppd", nch > 0)
 	}
 	if class == "epoch" {
+		// eligibility judged from the harness's own ledger of accepted adds (not from the stored LastUpdatedBlock):
+		// whoever gained an asset from its bucket last added to that pool more than the lock period ago
+		var lk []string
+		for k := range w.lastAdd {
+			lk = append(lk, k)
+		}
+		sort.Strings(lk)
+		var lb strings.Builder
+		for _, k := range lk {
+			parts := strings.SplitN(k, "/", 2)
+			if strings.HasPrefix(parts[0], "ibc") { // the symbol itself contains a slash
+				i := strings.LastIndex(k, "/")
+				parts = []string{k[:i], k[i+1:]}
+			}
+			fmt.Fprintf(&lb, " %s %s %d", parts[0], parts[1], w.lastAdd[k])
+		}
+		w.out.Emit(fmt.Sprintf("chk c18.l1elig tag=epoch.eligible-by-ledger %d %d %d%s ||%s", lock, w.height, nch, sb.String(), lb.String()), "true", "chk.l1elig", nch > 0)
+	}
+	if class == "epoch" {
 		// whatever left a bucket reached a wallet or the asset's pool (both modes)
 		w.out.Emit("chk c18.l1flow tag=epoch.flow "+pre+" || "+w.dump(), "true", "chk.l1flow", nch > 0)
 	}
@@ -297,10 +318,7 @@ func (w *ammWorld) step() {
 			n = rng.Amount(70)
 		}
 		e := rng.Amount(100)
-		w.tx(fmt.Sprintf("create %s %s %s %s", u, sym, n, e), "create", func(ctx sdk.Context) (string, error) {
-			_, err := w.srv.CreatePool(sdk.WrapSDKContext(ctx), &clptypes.MsgCreatePool{Signer: u.String(), ExternalAsset: asset(sym), NativeAssetAmount: uintOf(n), ExternalAssetAmount: uintOf(e)})
-			return "", err
-		})
+		w.opCreate(u, sym, n, e)
 	case c < 30: // add
 		var n, e *big.Int
 		if p == nil {
@@ -669,6 +687,9 @@ func (w *ammWorld) randomPoolMargin() {
 func (w *ammWorld) opCreate(u sdk.AccAddress, sym string, n, e *big.Int) {
 	w.tx(fmt.Sprintf("create %s %s %s %s", u, sym, n, e), "create", func(ctx sdk.Context) (string, error) {
 		_, err := w.srv.CreatePool(sdk.WrapSDKContext(ctx), &clptypes.MsgCreatePool{Signer: u.String(), ExternalAsset: asset(sym), NativeAssetAmount: uintOf(n), ExternalAssetAmount: uintOf(e)})
+		if err == nil {
+			w.lastAdd[sym+"/"+u.String()] = w.height
+		}
 		return "", err
 	})
 }
@@ -683,6 +704,9 @@ func (w *ammWorld) opAdd(u sdk.AccAddress, sym string, n, e *big.Int) {
 	}
 	w.tx(fmt.Sprintf("add %s %s %s %s", u, sym, n, e), class, func(ctx sdk.Context) (string, error) {
 		_, err := w.srv.AddLiquidity(sdk.WrapSDKContext(ctx), &clptypes.MsgAddLiquidity{Signer: u.String(), ExternalAsset: asset(sym), NativeAssetAmount: uintOf(n), ExternalAssetAmount: uintOf(e)})
+		if err == nil {
+			w.lastAdd[sym+"/"+u.String()] = w.height
+		}
 		return "", err
 	})
 }
